@@ -330,3 +330,51 @@ VDRIVE_OP(facongrtrace)
 	ip.SetUseSimulation(false);
 	return runStepTrace(c, ip);
 }
+
+// ---------------------------------------------------------------- step-level binding of the Layer-2 model FAOps
+// {"op":"faoptrace","kind":"isect"|"unreach"|"witness","A",["B"]}: runs the operation with the step hook installed; returns Start
+// (operands), the Pop events of the operation's own loop (events of nested operations carry another mode and are dropped)
+// and Result (the automaton returned; for isect read back through the product map as pairs).
+VDRIVE_OP(faoptrace)
+{
+	std::string kind = c.at("kind").get<std::string>();
+	FA a = MakeFA(c.at("A"));
+	FA b = c.contains("B") ? MakeFA(c.at("B")) : FA();
+	std::string mode = (kind == "isect") ? "faisect" : ((kind == "unreach") ? "faunreach" : "fawitness");
+	std::vector<std::string> events;
+	g_faSink = &events;
+	VATA::Util::Verif::Sink() = faSink;
+	FA r;
+	AutBase::ProductTranslMap pm;
+	try
+	{
+		if (kind == "isect") { r = FA::Intersection(a, b, &pm); }
+		else if (kind == "unreach") { r = a.RemoveUnreachableStates(); }
+		else if (kind == "witness") { r = a.GetCandidateTree(); }
+		else { throw std::runtime_error("vdrive: bad kind"); }
+	}
+	catch (...) { VATA::Util::Verif::Sink() = nullptr; g_faSink = nullptr; throw; }
+	VATA::Util::Verif::Sink() = nullptr;
+	g_faSink = nullptr;
+	json evs = json::array();
+	json start;
+	start["e"] = "Start"; start["kind"] = kind; start["A"] = ReadFA(a);
+	if (kind == "isect") { start["B"] = ReadFA(b); }
+	evs.push_back(start);
+	size_t starts = 0;
+	for (const std::string& s : events)
+	{
+		json e = json::parse(s);
+		if (e.value("mode", "") != mode) { continue; }
+		if (e.at("e") == "Start") { if (++starts > 1) { break; } continue; }
+		evs.push_back(e);
+	}
+	json done;
+	done["e"] = "Result";
+	done["R"] = ReadFA(r);
+	if (kind == "isect") { done["map"] = prodMapToJson(pm); }
+	evs.push_back(done);
+	json res;
+	res["events"] = evs;
+	return res;
+}
